@@ -14,7 +14,7 @@
     listed one by one in [unregistered_names] together with the registry row that carries the
     number (when there is one), and the number is then checked against that row. *)
 From Coq Require Import Ascii.
-From RS Require Import Base.Bytes.
+From RS Require Import Base.Bytes Bind.Types.
 From RSGen Require Import RegistryCsv.
 Open Scope string_scope.
 Open Scope N_scope.
@@ -213,6 +213,7 @@ Definition ethernet_addresses : list (string * bytes) := [
 
 Inductive registry :=
 | RNum (family : string) (rows : list (string * N))      (* numbers; family prefix dropped from row names *)
+| RCsv (rows : list (string * N))                        (* numbers; rows already normalised by translators/registry.py *)
 | RBytes (rows : list (string * bytes)).
 
 Definition registries : list (string * registry) := [
@@ -232,9 +233,9 @@ Definition registries : list (string * registry) := [
   ("arp::hrd", RNum "" arp_hardware_types);
   ("tls::version", RNum "" tls_versions);
   ("tls::content", RNum "" tls_content_types);
-  ("tls::handshake", RNum "" tls_handshake_types);
-  ("tls::ext", RNum "" tls_extensions);
-  ("tls::cipher", RNum "" tls_cipher_suites);
+  ("tls::handshake", RCsv tls_handshake_types);
+  ("tls::ext", RCsv tls_extensions);
+  ("tls::cipher", RCsv tls_cipher_suites);
   ("vxlan", RNum "" service_ports);
   ("eth::ethertype", RNum "" ethertypes);
   ("eth", RBytes ethernet_addresses);
@@ -341,10 +342,11 @@ Inductive verdict :=
 Definition judge (path : string) (v : cvalue) : verdict :=
   match registry_of path registries with
   | None => Wrong "module has no registry"
-  | Some (RNum family rows, name) =>
+  | Some (RNum _ rows as reg, name) | Some (RCsv rows as reg, name) =>
+    let norm := match reg with RNum family _ => norm_drop family | _ => fun x => x end in
     match v with
     | CNum n =>
-      match lookup_row (norm_drop family) name rows with
+      match lookup_row norm name rows with
       | Some r => if N.eqb r n then Registered r else Wrong "registry assigns another number to this name"
       | None =>
         match find_unregistered path unregistered_names with
@@ -387,5 +389,32 @@ Fixpoint rows_functional (f : string -> string) (rows : list (string * N)) : boo
 Definition registry_functional (r : registry) : bool :=
   match r with
   | RNum family rows => rows_functional (norm_drop family) rows
+  | RCsv rows => rows_functional (fun x => x) rows
   | RBytes _ => true
+  end.
+
+(** * The statement about a table of constants (path, value) *)
+
+Definition cvalue_of (d : valdef) : cvalue :=
+  match d with
+  | DU8 n | DU16 n | DU32 n | DU64 n => CNum n
+  | DStr b => CBytes b
+  | _ => COther
+  end.
+
+Definition const_matches_registry (pv : string * valdef) : bool :=
+  verdict_ok (judge (fst pv) (cvalue_of (snd pv))).
+
+(** an entry of [unregistered_names] is not stale: the library has a constant of that path ... *)
+Definition unregistered_exists (consts : list (string * valdef)) (u : unregistered) : bool :=
+  existsb (fun pv => String.eqb (fst pv) (u_path u)) consts.
+
+(** ... and no row of its registry normalises to its name (otherwise it would not belong here) *)
+Definition unregistered_is_unregistered (u : unregistered) : bool :=
+  match registry_of (u_path u) registries with
+  | Some (RNum family rows, name) =>
+    match lookup_row (norm_drop family) name rows with None => true | Some _ => false end
+  | Some (RCsv rows, name) =>
+    match lookup_row (fun x => x) name rows with None => true | Some _ => false end
+  | _ => false
   end.
